@@ -153,7 +153,7 @@ def check(ctx):
         # ---- lifecycle: no request outlives its connection unattended ------------------
         lc = lifecycle(a, cls)
         for reg in ("windowSubscribe", "windowUnsubscribe"):
-            drained_always = lc.all_(lc.loss, lambda tr: tr.path.exit_kind() == "raise" or __import__("sa.lifecycle").lifecycle.drains(tr.path.events, reg)[0])
+            drained_always = lc.all_(lc.loss, lambda tr: tr.path.exit_kind() == "raise" or __import__("sa.lifecycle").lifecycle.drains(tr.path.events, reg, "after-cancel")[0])
             keeps = lc.loss_keeps(reg)
             resumed = lc.resume_rearms(reg)
             purged = lc.purge_drains(reg)
